@@ -53,7 +53,7 @@ def rule_traces_to_sets(ctx: Ctx, repo: Repo) -> None:
         return R("inst", __cls__=K("monkeytype.tracing.CallTrace"), func=func, arg_types=R("dict", items=((K("a"), a),) if a is not None else ()),
                  return_type=ret, yield_type=yld)
 
-    base = [tr(f1, INT, STR), tr(f1, STR, K(None)), tr(f1, INT, STR), tr(f2, NONE, INT, STR), tr(f2, INT, K(None), INT)]
+    base = [tr(f1, INT, STR), tr(f1, STR, K(None)), tr(f1, INT, STR), tr(f2, NONE, INT, STR), tr(f2, INT, STR, INT)]
     seen: Dict[str, Any] = {}
     n = 0
     for perm in sorted(set(itertools.permutations(range(len(base))))):
@@ -100,7 +100,7 @@ def rule_traces_to_sets(ctx: Ctx, repo: Repo) -> None:
                     ok = v == R("rewritten", of=R("shrunk", of=K(frozenset({INT, STR})), limit=K(2)))
                 ok = ok and r1[2] == R("rewritten", of=R("shrunk", of=K(frozenset({STR})), limit=K(2))) and r1[3] == K(None)
                 r2 = by_func[f2]
-                ok = ok and r2[2] == R("rewritten", of=R("shrunk", of=K(frozenset({INT})), limit=K(2))) and \
+                ok = ok and r2[2] == R("rewritten", of=R("shrunk", of=K(frozenset({INT, STR})), limit=K(2))) and \
                     r2[3] == R("rewritten", of=R("shrunk", of=K(frozenset({INT, STR})), limit=K(2)))
                 ok = ok and all(S("strategy") in r or any("strategy" in str(x) for x in r) for r in record)
             ctx.check(ok, "R-C14.1a", bm.fq,
@@ -235,8 +235,8 @@ def rule_no_process_text(ctx: Ctx, repo: Repo) -> None:
 def run(ctx: Ctx, repo: Repo, tier: str) -> None:
     ctx.trust("iteration order of a set is arbitrary: any permutation of insertion orders may occur", "sorted() is deterministic for distinct keys; equal keys keep input order (stable)")
     ctx.assume("merging of a set of types is order-independent (decided under C04, R-C04.4)")
+    rule_no_process_text(ctx, repo)
+    rule_eq_hash(ctx, repo)
     rule_traces_to_sets(ctx, repo)
     rule_render_order(ctx, repo)
     rule_rewriters(ctx, repo)
-    rule_eq_hash(ctx, repo)
-    rule_no_process_text(ctx, repo)
